@@ -42,6 +42,38 @@ CHECKS = {
             "Exploration: every key of the pool (edge scalars + random) proves, verifies, matches the reference PopProve bytes; every ordered pair of distinct keys must fail; perturbations of the proof point and signatures over the public-key bytes must fail; re-encoded proofs must pass.",
             "Trusted: reference arithmetic.",
             "DESIGN.md 6 C09"),
+    "C10": ("runtime monitor: protocol runs with perturbation catalogue; elapsed time controlled through the input (honest proofs constructed with arbitrary timestamps via the public trait functions) + one real-time pair; reference verification equation with independently derived y",
+            "Exploration: commit-challenge-response for 3 schemes x 2 groups x 5 challenge kinds, every single-component perturbation rejected, finalize scheme mismatch refused; timestamp variant: accept iff elapsed < timeout with >= 5 s margins on proofs whose timestamp is chosen by the monitor, altered timestamps always Err, no abort for any u64 timestamp/timeout of the grid. MessageAugmentation completeness with the signed message is a recorded known finding (API-level defect); the pk||m workaround path is monitored instead.",
+            "Timing verdicts use margins >= 5 s around the harness clock; the band |elapsed - timeout| < 5 s is never asserted. Trusted: reference arithmetic.",
+            "DESIGN.md 6 C10"),
+    "C11": ("runtime monitor: round trip + exhaustive single-bit tamper of short ciphertext encodings + component tamper catalogue; reference opens library ciphertexts",
+            "Exploration with an exhaustive sub-space: all message lengths of the quantifier x 3 schemes x 2 groups round-trip on three decrypt paths and are opened by the independent implementation; every single-bit flip of the whole encoding of a designated short ciphertext per cell, sampled flips elsewhere, and the component catalogue must give is_valid()==0 and decrypt()==None; wrong keys never return the message.",
+            "Flips that no longer decode are counted as trivial; keys sampled.",
+            "DESIGN.md 6 C11"),
+    "C12": ("runtime monitor: subset enumeration + mismatch matrix; reference interpolates u*sk from share bytes and opens",
+            "Exploration with an exhaustive sub-space: every (t,n), n<=4 (quick)/5 (thorough), every subset, 3 ciphertext schemes x 2 groups, both decrypt paths; shares verify against own key share + ciphertext and against no other participant / ciphertext / scheme label.",
+            "Keys/messages sampled.",
+            "DESIGN.md 6 C12"),
+    "C13": ("runtime monitor: round trip (whole-key and share-recombined signatures) + region-aware tamper (authenticated prefix vs padding) + wrong-signature catalogue; reference opens library ciphertexts",
+            "Exploration with an exhaustive sub-space: lengths x identifiers x 3 schemes x 2 groups open with the honest signature and with signatures recombined from 2-of-3 / 3-of-5 shares; wrong id/key/scheme/identity give None; every bit of u, v, w of a designated short ciphertext is flipped: authenticated region -> None, padding/extension/truncation -> original or None, never another message.",
+            "Keys/messages sampled.",
+            "DESIGN.md 6 C13"),
+    "C14": ("runtime monitor: algebraic checks against the reference (m*H, homomorphism through all 6 Add impls, threshold shares) + proof perturbation catalogue + transcript re-computation by the reference in both directions",
+            "Exploration: plaintext scalars from E x random recipient keys x 2 groups; sums of 2,3,16 ciphertexts; every decryption-share subset for n<=4/5; the reference verifier recomputes the merlin transcript and must reproduce the library's challenge, the library must accept reference-built proofs; every single-component perturbation and wrong key rejected.",
+            "Trusted: merlin (shared), reference arithmetic.",
+            "DESIGN.md 6 C14"),
+    "C15": ("runtime monitor: type x codec x value round-trip matrix with equality, re-encoding byte equality, determinism and a measured length table",
+            "Exploration over an enumerated matrix: 26 byte-convertible types + 2 enums x 2 groups x every variant x {bytes, 4 container conversions, serde_bare, serde_json, be/le scalar codecs} x honest and edge values (identity points, edge scalars, empty/64 KiB payloads, all 255 share identifiers, extreme timestamps).",
+            "Values inside a cell are sampled; types, codecs, variants enumerated.",
+            "DESIGN.md 6 C15"),
+    "C16": ("runtime monitor: structure-aware point substitution in every encoding + independent point validator (reference decompression + on-curve + subgroup check) on everything a decoder returns; share containers checked at use",
+            "Exploration: every decoder-validated point position in every type x 3 codecs x 2 groups is replaced by non-subgroup points, off-curve x, flag variants; every truncation must be rejected, exact-length types reject extensions, zero scalars rejected by byte importers; random byte strings; bad payloads in the four share containers must make every combine/verify entry point fail. Oracle is 'if accepted then valid', so lenient-but-safe decoding is no alarm.",
+            "Trusted: bls12_381_plus decompression/subgroup check as the independent validator.",
+            "DESIGN.md 6 C16"),
+    "C17": ("runtime abort monitor: panic hook + catch_unwind + worker-subprocess isolation with pre-call event log, run on the checked (overflow + debug assertions) and release builds (thorough: + pure-Rust backend, + valgrind memcheck pass); hostile decode / consume / edge-number workload",
+            "Exploration: ~270k calls per build in the quick tier - every truncation, exhaustive bit flips of encodings <= 200 bytes, extensions, fills, hostile outer and inner (under the keystream) length prefixes, hostile JSON at every leaf, the zero test exhaustively over the 256 byte values, every decoder-returned value through the in-scope consumers, slice lengths 0..2, timestamp x timeout grid. One defect = one signature (panic location).",
+            "Only the functions the property names are consumers (decode, verify, decrypt, share combination, accessors); sign/encrypt with decoded keys are out of scope. A hang is detected by the parent watchdog (inconclusive, not a violation, unless the call log shows a call that never returned).",
+            "DESIGN.md 6 C17"),
 }
 
 NOT_YET = {}
